@@ -80,6 +80,7 @@ var pinnedCases = []pinnedCase{
 	{"C02", "select-count-marker", `return select("#x",1,2)`, "2", nil},
 	{"C20", "not-found-message-format", `package.path="./?.lua" local ok,msg=pcall(require,"zzz") return ok,(msg:match("module.*$"):gsub("\n\t",";"))`, "false|module 'zzz' not found:;no field package.preload['zzz'];no file './zzz.lua'", nil},
 	// seventh batch
+	{"C17", "getlocal-needs-a-positive-number", `local function f(a, b) local c = 3 return debug.getlocal(1, 0), debug.getlocal(1, -1), debug.setlocal(1, 0, "v"), debug.setlocal(1, -2, "v"), (debug.getlocal(1, 1)), a, b, c end local outer = "o" return f(1, 2)`, "nil|nil|nil|nil|a|1|2|3", nil},
 	{"C15", "format-missing-argument", `return pcall(string.format, "%s"), pcall(string.format, "%s %s", "a"), pcall(string.format, "%q"), pcall(string.format, "%d")`, "false|false|false|false", nil},
 	{"C15", "format-invalid-directive", `return pcall(string.format, "%y", 1), pcall(string.format, "%", 1), pcall(string.format, "%ld", 1), pcall(string.format, "%123d", 1), pcall(string.format, "%.123f", 1), pcall(string.format, "%-+ #0-d", 1), (string.format("%5.2f|%-5d|%+d|%%", 1.5, 3, 4))`, "false|false|false|false|false|false| 1.50|3    |+4|%", nil},
 	{"C16", "tonumber-wide-integer-with-base", `return tonumber("0x10000000000000000", 16) == tonumber("0x10000000000000000"), tonumber("10000000000000000", 16) == 2^64, tonumber("ffffffffffffffffff", 16) == 2^72, tonumber("1" .. ("0"):rep(70), 2) == 2^70, tonumber("zz", 36)`, "true|true|true|true|1295", nil},
@@ -358,6 +359,27 @@ func pinnedGoAPI5(r *harness.Run, prop string) {
 			}
 			if s := L.Concat(lua.LString("x")); s != "x" {
 				return fmt.Sprintf("Concat(x) gives %q", s)
+			}
+			return ""
+		})
+		check("goapi/replace-upvalue-index-at-top-level", func(L *lua.LState) string {
+			L.Push(lua.LNumber(7))
+			L.Replace(lua.UpvalueIndex(1), lua.LNumber(1))
+			if L.GetTop() != 1 || L.Get(1) != lua.LNumber(7) {
+				return fmt.Sprintf("the stack changed: top %d", L.GetTop())
+			}
+			// inside a host closure the same call replaces the upvalue
+			fn := L.NewClosure(func(L *lua.LState) int {
+				L.Replace(lua.UpvalueIndex(1), lua.LString("new"))
+				L.Replace(lua.UpvalueIndex(5), lua.LString("beyond"))
+				L.Push(L.Get(lua.UpvalueIndex(1)))
+				return 1
+			}, lua.LString("old"))
+			if err := L.CallByParam(lua.P{Fn: fn, NRet: 1, Protect: true}); err != nil {
+				return err.Error()
+			}
+			if L.Get(-1) != lua.LString("new") {
+				return fmt.Sprintf("Replace on the upvalue of a host closure gave %v", L.Get(-1))
 			}
 			return ""
 		})
